@@ -1,5 +1,7 @@
 """C03 — output is invariant under how the work is decomposed, scheduled or split."""
 import copy
+import json
+import os
 import pathlib
 import shutil
 
@@ -215,6 +217,65 @@ def one_input(ctx, spec, work, tag):
     shutil.rmtree(icf_ref, ignore_errors=True)
 
 
+def history_case(ctx, work, k):
+    """the store must not depend on what the process converted before: a file converted after other (wider) files in this
+    process equals the same file converted by a fresh interpreter"""
+    import subprocess
+    import sys
+    from bio2zarr import vcf2zarr
+    from props import c17
+    rng = ctx.rng
+    la = k % 2 == 0
+    if la:
+        # local alleles: first a file with many alleles and large likelihoods, then a narrow one
+        while True:
+            a = c17.gen_spec(rng, big=True)
+            if any(len(r["alt"]) >= 3 and "PL" in r["format"] and r["_ploidy"] == 2 for r in a["records"]):
+                break
+        while True:
+            b = c17.gen_spec(rng)
+            if all(r["_ploidy"] == 2 for r in b["records"]):
+                break
+        for r in b["records"]:
+            r["alt"] = r["alt"][:1]
+            for s_ in r["samples"]:
+                s_["_alleles"] = [None if x is None else min(x, len(r["alt"])) for x in s_["_alleles"]]
+                s_["GT"] = "/".join("." if x is None else str(x) for x in s_["_alleles"])
+                if s_.get("PL") is not None:
+                    g = (len(r["alt"]) + 1) * (len(r["alt"]) + 2) // 2
+                    s_["PL"] = [None if v is None else v % 100 for v in s_["PL"][:g]]
+        opts = {"local_alleles": True}
+    else:
+        a = vcfgen.rich_file(rng, nrec=30, nsamples=3, ploidies=(2,), max_alt=4)
+        b = vcfgen.rich_file(rng, nrec=6, nsamples=3, ploidies=(2,), max_alt=1, small_ints=True)
+        opts = {}
+    if not a["records"] or not b["records"]:
+        return
+    pa = vcfgen.materialise(a, pathlib.Path(work) / f"h{k}a", "vcf.gz+tbi")
+    pb = vcfgen.materialise(b, pathlib.Path(work) / f"h{k}b", "vcf.gz+tbi")
+    inp = {"first": {"vcf_spec": a}, "vcf_spec": b, "options": opts}
+    ctx.case(("history", k, la, repr(b["records"])[:500]), True)
+    ctx.count("history_cases_local_alleles" if la else "history_cases")
+    out_a, out_b, out_f = (pathlib.Path(work) / f"h{k}{x}.zarr" for x in "abf")
+    try:
+        vcf2zarr.convert([pa], out_a, worker_processes=0, **opts)
+        vcf2zarr.convert([pb], out_b, worker_processes=0, **opts)
+        env = dict(os.environ)
+        env["PYTHONPATH"] = f"{common.REPO}:{common.ROOT / 'harness'}"
+        p = subprocess.run([sys.executable, str(common.ROOT / "harness" / "c03_fresh.py"), str(pb), str(out_f), json.dumps(opts)],
+                           env=env, capture_output=True, text=True, timeout=300)
+        if p.returncode != 0:
+            ctx.violate(f"conversion in a fresh interpreter failed while the in-process one succeeded: {p.stderr[-200:]}", inp, "store", p.stderr[-200:])
+            return
+    except Exception as e:  # noqa: BLE001
+        ctx.violate(f"conversion failed: {type(e).__name__}: {str(e)[:200]}", inp, "store", repr(e)[:200])
+        return
+    ref = vczspec.read_store(out_f)
+    compare(ctx, ref, convlib.file_hashes(out_f), out_b, inp, "file converted after another one in the same process vs a fresh interpreter")
+    for p_ in (out_a, out_b, out_f):
+        shutil.rmtree(p_, ignore_errors=True)
+
+
 def run(ctx):
     work = common.scratch_dir("c03-")
     try:
@@ -229,6 +290,8 @@ def run(ctx):
             for p in pathlib.Path(work).glob(f"i{k}*"):
                 if p.is_file():
                     p.unlink()
+        for k in range(4 if ctx.thorough else 2):
+            history_case(ctx, work, k)
     finally:
         shutil.rmtree(work, ignore_errors=True)
 
